@@ -49,12 +49,14 @@ def contract(cls, step):
         props=["C04", "C02", "C11"],
         params={"self": OBJ(cls), "graph": OBJ("Graph"), "values": DICT(STR, ANY), "max_iterations": INT, "max_concurrency": OPT(INT), "dispatcher": ANY, "run_id": STR, "run_span_id": STR, "event_processors": ANY},
         returns=OBJ("GraphState"),
-        requires=["max_iterations >= 1", "nodes_keyed_by_name(graph)", "all(gate_targets_ok(g, END) for g in graph._nodes.values())"],
+        requires=["max_iterations >= 1", "nodes_keyed_by_name(graph)", "gates_wellformed(graph, END)"],
         imports={"END": "hypergraph.nodes.gate"},
         may_raise={"BaseException": True},
         trace=[{"name": "C04 InfiniteLoopError exactly when nodes are still ready after max_iterations steps; quiescent runs return", "check": loop_verdict},
                {"name": "C11 only ExecutionError (carrying the state so far) leaves the superstep loop", "check": wraps_with_state}],
-        loops=[{"bound": "max_iterations", "body_trace": [superstep_once(step)]}],
+        # the graph is immutable: its well-formedness facts survive every superstep (carried explicitly because the loop
+        # re-binds `state`, so the loop cut forgets the whole heap)
+        loops=[{"bound": "max_iterations", "body_trace": [superstep_once(step)], "invariant": ["nodes_keyed_by_name(graph)", "gates_wellformed(graph, END)"]}],
     )
 
 
